@@ -124,7 +124,7 @@ func check(t ev.TB, c Case, labels ...string) {
 	ids := map[string]int{}
 	for _, st := range c.Steps {
 		switch st.Op {
-		case "close", "raw", "failnode", "disconnect", "subclose", "pubclose":
+		case "close", "raw", "failnode", "disconnect", "subclose", "pubclose", "restartnode":
 			labels = append(labels, "cause:"+st.Op)
 		case "connect":
 			ids[st.ClientID]++
@@ -169,7 +169,7 @@ func genCase(t *rapid.T, allowNodeFail bool) Case {
 	n := rapid.IntRange(4, 25).Draw(t, "steps")
 	connected := map[int]uint16{}
 	payload := 0
-	failed := 0
+	failed, failedNode, restarted := 0, 0, false
 	for i := 0; i < n; i++ {
 		ci := rapid.IntRange(0, c.Clients-1).Draw(t, "client")
 		ka, isConn := connected[ci]
@@ -228,7 +228,15 @@ func genCase(t *rapid.T, allowNodeFail bool) Case {
 		default:
 			if allowNodeFail && c.Nodes > 1 && failed == 0 {
 				failed++
-				c.Steps = append(c.Steps, sim.Step{Op: "failnode", Node: rapid.IntRange(0, c.Nodes-1).Draw(t, "failed")})
+				failedNode = rapid.IntRange(0, c.Nodes-1).Draw(t, "failed")
+				c.Steps = append(c.Steps, sim.Step{Op: "failnode", Node: failedNode})
+			} else if allowNodeFail && failed == 1 && !restarted {
+				// the failed node comes back under its node id with empty state
+				restarted = true
+				c.Steps = append(c.Steps, sim.Step{Op: "restartnode", Node: failedNode})
+			} else if allowNodeFail && failed == 1 && restarted {
+				failed++
+				c.Steps = append(c.Steps, sim.Step{Op: "failnode", Node: failedNode})
 			} else {
 				c.Steps = append(c.Steps, sim.Step{Op: "ping", C: ci})
 			}
